@@ -6,6 +6,7 @@ one tensor atom (vector or matrix) per monomial. No execution of rateslib code, 
 applied closures are beta-reduced, borrows/clones/views are erased, in-crate helpers are summarised by evaluating their own bodies
 symbolically (bounded depth), branches are kept as guarded alternatives.
 """
+import re
 from fractions import Fraction as F
 import hir
 
@@ -664,6 +665,15 @@ class Ev:
             if op in ("Eq", "Ne", "Lt", "Le", "Gt", "Ge"):
                 lt = (e["l"].get("ty") or "").replace("&", "").strip()
                 return cmp_sym(op, l, r, lt in INT_TYPES)
+        if op in ("Eq", "Ne") and all(isinstance(v, Sym) and v.tag[0] == "ctor" and v.tag[1] in ("Some", "None") for v in (l, r)):
+            # derived equality of Option: same constructor and equal payloads
+            if l.tag[1] != r.tag[1]:
+                return Sym("bool", "false" if op == "Eq" else "true")
+            if l.tag[1] == "None":
+                return Sym("bool", "true" if op == "Eq" else "false")
+            if len(l.tag) == 3 and len(r.tag) == 3 and isinstance(l.tag[2], Poly) and isinstance(r.tag[2], Poly):
+                inner = re.sub(r"^.*?Option<(.*)>$", r"\1", (e["l"].get("ty") or "").replace("&", "").strip())
+                return cmp_sym(op, l.tag[2], r.tag[2], inner in INT_TYPES)
         if op in ("Eq", "Ne", "Lt", "Le", "Gt", "Ge"):
             return Sym("cmp", op, vkey(l), vkey(r))
         if isinstance(l, Sym) or isinstance(r, Sym):
@@ -1385,6 +1395,8 @@ class Ev:
                 raise Unsupported("map over a function value that is not modelled: %r" % (f,))
             if m == "collect" and not args:
                 return Coll(recv)
+            if m == "skip" and len(args) == 1 and isinstance(args[0], Poly) and not recv.enumerated:
+                return Seq(Sym("skip", vkey(recv.src), args[0].key()), lambda idx, f0=recv.fn, n=args[0]: f0(idx + n))
             if m in ("all", "any") and len(args) == 1 and isinstance(args[0], Clo):
                 f = args[0]
                 env2 = dict(f.env)
@@ -1456,6 +1468,14 @@ class Ev:
                     return self.collapse(self.eval(args[1].body, env2, depth))
             if m == "is_some" and not args:
                 return Sym("bool", "true" if recv.tag[1] == "Some" else "false")
+            if m in ("map", "is_some_and", "is_none_or", "and_then") and len(args) == 1 and isinstance(args[0], Clo) and recv.tag[1] in ("Some", "None"):
+                if recv.tag[1] == "None":
+                    return {"map": recv, "and_then": recv, "is_some_and": Sym("bool", "false"), "is_none_or": Sym("bool", "true")}[m]
+                if len(recv.tag) == 3:
+                    env2 = dict(args[0].env)
+                    self.bind(args[0].params[0], recv.tag[2], env2)
+                    body = self.collapse(self.eval(args[0].body, env2, depth))
+                    return Sym("ctor", "Some", body) if m == "map" else body
             if m == "is_none" and not args:
                 return Sym("bool", "true" if recv.tag[1] == "None" else "false")
         if any(isinstance(a, Rec) for a in args) and not isinstance(recv, Rec) and self.facts.fn(d) is not None:
@@ -1478,6 +1498,8 @@ class Ev:
                 return func_atom("abs", recv)
             if m in ("try_into",) and not args and recv.order == 0:
                 return Sym("ctor", "Ok", recv)
+            if m in ("checked_sub", "checked_add", "checked_mul", "checked_div") and len(args) == 1 and recv.order == 0:
+                return Sym("checked", m[8:], vkey(recv), vkey(args[0]))
             if m == "mul_add" and len(args) == 2:
                 return recv * args[0] + args[1]
             if m in ("partial_cmp", "cmp", "total_cmp") and len(args) == 1:
